@@ -1,6 +1,7 @@
 // Package c05fake is an in-process redis fake for property C05: a RESP2 server behind net.Pipe that a real
 // go-redis client talks to, with a virtual millisecond clock. It implements exactly the commands the
-// redis-backed TTL cache issues (SET [PX|EX|KEEPTTL] [NX], SETNX, GET, GETDEL, EXPIRE, DEL, SCAN MATCH) with
+// redis-backed TTL cache issues (SET [PX|EX|KEEPTTL] [NX], SETNX, GET, GETDEL, EXPIRE, multi-key DEL, cursor-paged
+// SCAN MATCH/COUNT) with
 // the semantics of redis 6.2+ as read from its documentation/source: a key is expired when now > when
 // (keyIsExpired), expiry is evaluated lazily on access, a non-positive SET expire time is an error,
 // EXPIRE with a non-positive time deletes the key. HELLO is answered with an error so that the client
@@ -33,10 +34,18 @@ type Server struct {
 	clock func() int64 // unix milliseconds
 	data  map[string]*entry
 	log   []string
+	// open SCAN iterations: cursor id -> where to resume
+	cursors    map[uint64]scanState
+	nextCursor uint64
+}
+
+type scanState struct {
+	after string // resume with keys > after ("" = from the start)
+	page  int    // number of pages already served in this iteration
 }
 
 func New(clock func() int64) *Server {
-	return &Server{clock: clock, data: map[string]*entry{}}
+	return &Server{clock: clock, data: map[string]*entry{}, cursors: map[uint64]scanState{}}
 }
 
 type nopLogger struct{}
@@ -264,24 +273,78 @@ func (s *Server) exec(args []string) string {
 		}
 		return ":" + strconv.Itoa(cnt) + "\r\n"
 	case "scan":
-		pat := "*"
+		// SCAN cursor [MATCH pat] [COUNT n] — paged like real redis: COUNT (default 10) bounds the keys *examined*
+		// per call, MATCH filters what was examined (so a page may hold fewer than COUNT keys, or none, with a
+		// non-zero cursor), the iteration ends with cursor 0, and every key present during the whole iteration is
+		// returned. A cursor stands for "resume after key X" in key order, so deletions between calls lose nothing.
+		if len(args) < 2 {
+			return "-ERR wrong number of arguments for 'scan' command\r\n"
+		}
+		cur, err := strconv.ParseUint(args[1], 10, 64)
+		if err != nil {
+			return "-ERR invalid cursor\r\n"
+		}
+		pat, count := "*", 10
 		for i := 2; i+1 < len(args); i += 2 {
-			if strings.ToLower(args[i]) == "match" {
+			switch strings.ToLower(args[i]) {
+			case "match":
 				pat = args[i+1]
+			case "count":
+				n, err := strconv.Atoi(args[i+1])
+				if err != nil || n < 1 {
+					return "-ERR value is not an integer or out of range\r\n"
+				}
+				count = n
+			default:
+				return "-ERR syntax error\r\n"
 			}
 		}
-		var ks []string
-		for k := range s.data {
-			if s.live(k) == nil {
-				continue
+		after, page := "", 0
+		if cur != 0 {
+			st, ok := s.cursors[cur]
+			if !ok {
+				return "*2\r\n$1\r\n0\r\n*0\r\n" // unknown cursor: iteration is over
 			}
+			after, page = st.after, st.page
+			delete(s.cursors, cur)
+		}
+		var all []string
+		for k := range s.data {
+			if s.live(k) != nil && (cur == 0 || k > after) {
+				all = append(all, k)
+			}
+		}
+		sort.Strings(all)
+		// how many keys this call examines: COUNT, except that every third follow-up page is short and every
+		// fourth is empty (real redis gives no lower bound per call)
+		work := count
+		switch {
+		case page > 0 && page%4 == 2:
+			work = 0
+		case page > 0 && page%3 == 1 && count > 3:
+			work = count - 3
+		}
+		if work > len(all) {
+			work = len(all)
+		}
+		var ks []string
+		for _, k := range all[:work] {
 			if ok, _ := path.Match(pat, k); ok {
 				ks = append(ks, k)
 			}
 		}
-		sort.Strings(ks)
+		next := uint64(0)
+		if work < len(all) {
+			s.nextCursor++
+			next = s.nextCursor
+			if work > 0 {
+				after = all[work-1]
+			}
+			s.cursors[next] = scanState{after: after, page: page + 1}
+		}
 		var b strings.Builder
-		b.WriteString("*2\r\n$1\r\n0\r\n*" + strconv.Itoa(len(ks)) + "\r\n")
+		cs := strconv.FormatUint(next, 10)
+		b.WriteString("*2\r\n" + bulk([]byte(cs)) + "*" + strconv.Itoa(len(ks)) + "\r\n")
 		for _, k := range ks {
 			b.WriteString(bulk([]byte(k)))
 		}
